@@ -33,15 +33,25 @@ def _is_accepted_batch(doc: Any, reply_doc: Any) -> bool:
 
 
 def fam_exactly_once(w: World) -> None:
+    """One to three documents, one after another, to one long-lived dispatcher; each judged on its own."""
     ch = w.ch
-    info = S.gen_document(ch, allow_junk=False)
-    n = len(info['doc']) if isinstance(info['doc'], list) else 1
+    n_deliveries = 1 + ch.draw(3, 'deliveries')
+    infos = [S.gen_document(ch, allow_junk=False, tok_prefix=f'd{d}_' if d else '') for d in range(n_deliveries)]
+    n = max((len(i['doc']) if isinstance(i['doc'], list) else 1) for i in infos)
     cfg = S.draw_config(ch, n)
-    S.plan_pauses(w, cfg, n + 1)
-    w.scenario = {'cfg': cfg, 'text': info['text'], 'kinds': info['kinds']}
-    w.nontrivial = info['shape'] == 'batch'
-    ctx = {'async': cfg['async'], 'max_batch_size': cfg['max_batch_size'], 'shape': info['shape']}
+    for d in range(n_deliveries):
+        S.plan_pauses(w, cfg, n + 1, tok_prefix=f'd{d}_' if d else '')
+    w.scenario = {'cfg': cfg, 'texts': [i['text'] for i in infos], 'kinds': [i['kinds'] for i in infos]}
+    w.nontrivial = n_deliveries > 1 or infos[0]['shape'] == 'batch'
     sut = S.ServerUnderTest(w, cfg)
+    for d, info in enumerate(infos):
+        _one_delivery(w, sut, cfg, info, d)
+        if w.violations:
+            return
+
+
+def _one_delivery(w: World, sut: S.ServerUnderTest, cfg: Dict[str, Any], info: Dict[str, Any], d: int) -> None:
+    ctx = {'async': cfg['async'], 'max_batch_size': cfg['max_batch_size'], 'shape': info['shape'], 'delivery': d}
     outcome, doc = S.judge_delivery(w, PROP, sut, info['text'], ('wellformed', 'reference'), ctx)
     if outcome[0] == 'raise':
         return
@@ -57,14 +67,14 @@ def fam_exactly_once(w: World) -> None:
         solo_cfg = dict(cfg)
         solo_replies: List[Any] = []
         for k, el in enumerate(req_doc):
-            solo = S.ServerUnderTest(w, solo_cfg, node=f'solo{k}')
+            solo = S.ServerUnderTest(w, solo_cfg, node=f'solo{d}_{k}')
             out = solo.deliver(json.dumps(el))
             if out[0] == 'raise':
                 w.violate('C02.solo', f'element {k} sent alone made dispatch raise {type(out[1]).__name__}', **ctx)
                 return
             if out[1] is not None:
-                ok, d = R.strict_loads(out[1][0])
-                solo_replies.append(d)
+                ok, dd = R.strict_loads(out[1][0])
+                solo_replies.append(dd)
         batch_replies = doc if isinstance(doc, list) else ([] if doc is None else [doc])
         if len(batch_replies) != len(solo_replies) or any(
                 not _same_reply(a, b) for a, b in zip(batch_replies, solo_replies)):
